@@ -97,7 +97,7 @@ def check_rotation(case, viol):
 
 def check_near(case, viol):
     import search.C19 as C19
-    bad = C19.check_near(case)
+    bad = C19.check_near(case, faces=False)
     if bad and bad[0] in ('box-frame', 'box-lost', 'image-window', 'raises'):
         viol.append({'site': 'C02:RandomCropNearBBox:%s' % bad[0], 'kind': 'near', 'case': case, 'observed': bad[1], 'expected': bad[2]})
 
@@ -151,9 +151,9 @@ def run(seed=0, tier='quick', hints=None, broken=False):
     # passes the far faces of a volume with three different extents (oracle shared with C19)
     import search.C19 as C19
     for i in range(8 if tier == 'quick' else 200):
-        case = C19.gen_case(rng, 'near', touch_far=(i % 2 == 0))
+        case = C19.gen_case(rng, 'near', touch_far=(i % 4 == 0), touch_low=(i % 4 == 2))
         if i % 2 == 0:
-            case['seed'] = R.EXT_BASE + [0xFFFF, 0xAAAA, 0x5555, rng.getrandbits(16)][(i // 2) % 4]
+            case['seed'] = R.EXT_BASE + [0xFFFF, 0x0000, 0xAAAA, 0x5555, rng.getrandbits(16)][(i // 2) % 5]
         check_near(case, viol)
         evals += 1
         seen.add(('RandomCropNearBBox', tuple(case['shape']), i % 2 == 0))
